@@ -18,6 +18,10 @@ CLAIMED = {
          'The differ is modelled as a state machine whose only state is the table of differ overrides; Lean proves by induction over arbitrary finite histories that any call is answered as after replaying only the configuration calls since the last reset (C12_history_free), that diff calls write no state and that reset restores the initial state. The model is tied to the code by running generated histories (diff, merge under random strategies, ignore configuration, reset) in one interpreter, call by call in pristine interpreters (forked before anything ran, plus a sample of freshly spawned ones), and through the Lean state machine with the recorded oracle answers.',
          'Trusted: Lean kernel, axioms as above; oracle contract K1 (the lru_cache-d similarity predicates are functions of their arguments) is checked on recorded answers, not proved; merge calls are assumed not to write differ state in the model (checked by the fresh-vs-history comparison of every later call). Fork-from-pristine stands in for a fresh interpreter for most calls; a sample is re-run in real fresh interpreters.',
          '5/C12'),
+ 'C18': ('Lean theorems (idempotence, ownership, foreign-tool preservation, closure under command sequences by induction) on a git-config/attributes model + per-run AST extraction of the enable functions\' writes discharged by `decide` + correspondence against real git',
+         'The eight enable/disable functions are modelled as transformers of a config store and an attributes file; Lean proves idempotence of every enable command, that no key outside nbdime\'s own keys/sections ever changes under any command sequence, that merge.tool / diff.guitool pointing at another tool survive every command without --set-default (and every sequence of such commands), that disable leaves no driver key, and that the attributes file keeps its content and gains at most the two nbdime lines. The git-config writes are extracted from the source by an AST walk on every run and compared with the model tables by generated `decide` obligations; command sequences run through the real entry points against real git (scratch HOME, repository and global scope) and are compared step by step with the model, with the property clauses also evaluated directly on the observed git state.',
+         'Trusted: Lean kernel, axioms as above; git itself (single-valued keys; --unset/--remove-section semantics) is an input of the model, tied only by the sampled correspondence; system scope is not exercised; attributes content is chunked into nbdime lines and foreign text by the harness.',
+         '5/C18'),
  'C14': ('Lean theorems about ignore/ignoreKeys entries of the model differ + per-run extraction of the 64 ignore tables discharged by `decide` against the category predicate + correspondence under every configuration',
          'For every oracle, configuration and document: an `ignore` table entry contributes no diff entry and `ignoreKeys` removes every entry with an ignored key (Lean theorems); the tables that set_notebook_diff_targets builds for all 64 subsets are extracted from the live code on every run and checked by a generated `decide` obligation against the category predicate C14.tableOk; the three clauses (hidden / faithful / only-ignored => empty) are evaluated on the implementation for all 64 subsets x {negative flags, positive flags, config booleans, Ignore mapping with True, with key lists, key lists + flag} through the real nbdiff parser glue.',
          'Trusted: Lean kernel, axioms as above, the table extractor (harness/nbcfg.py), the category specification written from the CLI help text. Known findings F-ign-id, F-ign-attkey, F-ign-align are matched by classifiers; the hidden-clause theorem covers keys present on both sides with non-atomic values (exactly where the code consults the table), which is why those findings exist.',
